@@ -1862,3 +1862,112 @@ Proof.
     destruct (HP true (pz_hash pz) (fun sig sec => Solved (pushes [u]) (Some [sig; sec]))) as [->|(a & b & ->)]; eauto.
 Qed.
 End NoCrash.
+
+(* ================================================================================================ *)
+(* 12. a strictly encoded signature (BIP66) is accepted by the lax parser of parse_signature_blob      *)
+Lemma nth_skipn_add {A} (l : list A) k i d : nth i (skipn k l) d = nth (k + i) l d.
+Proof. revert l; induction k as [|k IH]; intros l; [reflexivity|]. destruct l; [destruct i; reflexivity | apply IH]. Qed.
+
+Lemma nth_removelast_lt {A} (l : list A) i d : (S i < length l)%nat -> nth i (removelast l) d = nth i l d.
+Proof.
+  revert i; induction l as [|x l IH]; intros i H; [cbn in H; lia|].
+  destruct l as [|y l]; [cbn in H; lia|].
+  destruct i; [reflexivity|]. cbn [removelast nth]. apply IH. cbn [length] in *. lia.
+Qed.
+
+Lemma removelast_length {A} (l : list A) : length (removelast l) = (length l - 1)%nat.
+Proof.
+  induction l as [|x l IH]; [reflexivity|]. destruct l as [|y l]; [reflexivity|].
+  cbn [removelast length] in *. lia.
+Qed.
+
+Lemma remove_integer_at (l : bytes) :
+  nthn 0 l = 2 -> nthn 1 l < 128 -> nthn 1 l <> 0 -> (N.to_nat (nthn 1 l) + 2 <= length l)%nat ->
+  remove_integer l = Some (skipn (N.to_nat (nthn 1 l) + 2) l).
+Proof.
+  destruct l as [|c0 [|c1 r]]; unfold nthn; cbn [nth length]; intros H0 H1 H2 H3; try lia.
+  unfold remove_integer, read_length. rewrite H0. cbn [N.eqb Pos.eqb].
+  replace (b2n c1 <? 128) with true by lia. cbn [length Nat.sub].
+  replace (length r - 0)%nat with (length r) by lia.
+  replace (N.of_nat (length r) <? b2n c1) with false by lia.
+  replace (b2n c1 =? 0) with false by lia.
+  rewrite Nat.add_comm. reflexivity.
+Qed.
+
+Lemma remove_sequence_at (l : bytes) :
+  nthn 0 l = 48 -> nthn 1 l < 128 -> (N.to_nat (nthn 1 l) + 2 = length l)%nat ->
+  remove_sequence l = Some (skipn 2 l).
+Proof.
+  destruct l as [|c0 [|c1 r]]; unfold nthn; cbn [nth length]; intros H0 H1 H3; try lia.
+  unfold remove_sequence, read_length. rewrite H0. cbn [N.eqb Pos.eqb].
+  replace (b2n c1 <? 128) with true by lia. cbn [skipn]. unfold take_N.
+  replace (N.of_nat (length r) <=? b2n c1) with true by lia. reflexivity.
+Qed.
+
+Lemma parse_sig_ok_nonempty blob : blob <> [] -> parse_sig_ok blob =
+  match remove_sequence (removelast blob) with
+  | Some body => match remove_integer body with
+                 | Some rest => match remove_integer rest with Some _ => true | None => false end
+                 | None => false end
+  | None => false end.
+Proof. destruct blob; [congruence | reflexivity]. Qed.
+
+Lemma strict_der_parses sig : strict_der sig = true -> parse_sig_ok sig = true.
+Proof.
+  unfold strict_der. intros H. repeat (apply andb_true_iff in H; destruct H as [H ?]).
+  set (L := length sig) in *. set (lenR := N.to_nat (nthn 3 sig)) in *. set (lenS := N.to_nat (nthn (5 + lenR) sig)) in *.
+  assert (HL : (9 <= L <= 73)%nat) by lia.
+  assert (Hsum : (lenR + lenS + 7 = L)%nat) by lia.
+  assert (HR : (lenR <> 0)%nat) by (destruct (lenR =? 0)%nat eqn:E; [discriminate | lia]).
+  assert (HS : (lenS <> 0)%nat) by (destruct (lenS =? 0)%nat eqn:E; [discriminate | lia]).
+  set (der := removelast sig).
+  assert (Hdl : length der = (L - 1)%nat) by apply removelast_length.
+  assert (Hn : forall i, (S i < L)%nat -> nthn i der = nthn i sig) by (intros; unfold nthn, der; now rewrite nth_removelast_lt).
+  rewrite parse_sig_ok_nonempty by (intros ->; cbn in HL; lia). fold der.
+  rewrite (remove_sequence_at der).
+  2:{ rewrite Hn by lia. lia. }
+  2:{ rewrite Hn by lia. lia. }
+  2:{ rewrite Hn by lia. lia. }
+  set (body := skipn 2 der).
+  assert (Hbl : length body = (L - 3)%nat) by (unfold body; rewrite skipn_length; lia).
+  assert (Hb : forall i, nthn i body = nthn (2 + i) der) by (intros; unfold nthn, body; now rewrite nth_skipn_add).
+  rewrite (remove_integer_at body).
+  2:{ rewrite Hb, Hn by lia. cbn [Nat.add]. lia. }
+  2:{ rewrite Hb, Hn by lia. cbn [Nat.add]. fold lenR. unfold lenR in *. lia. }
+  2:{ rewrite Hb, Hn by lia. cbn [Nat.add]. unfold lenR in *. lia. }
+  2:{ rewrite Hb, Hn by lia. cbn [Nat.add]. fold lenR. lia. }
+  rewrite Hb, Hn by lia. cbn [Nat.add]. fold lenR.
+  set (rest := skipn (lenR + 2) body).
+  assert (Hrl : length rest = (lenS + 2)%nat) by (unfold rest; rewrite skipn_length; lia).
+  assert (Hr : forall i, (S (lenR + 4 + i) < L)%nat -> nthn i rest = nthn (lenR + 4 + i) sig).
+  { intros i Hi. replace (lenR + 4 + i)%nat with (2 + (lenR + 2 + i))%nat by lia.
+    rewrite <- Hn by lia. rewrite <- Hb. unfold nthn, rest. now rewrite nth_skipn_add. }
+  rewrite (remove_integer_at rest); [reflexivity| | | |].
+  - rewrite Hr by lia. rewrite Nat.add_0_r. lia.
+  - rewrite Hr by lia. replace (lenR + 4 + 1)%nat with (5 + lenR)%nat by lia. unfold lenS in *. lia.
+  - rewrite Hr by lia. replace (lenR + 4 + 1)%nat with (5 + lenR)%nat by lia. unfold lenS in *. lia.
+  - rewrite Hr by lia. replace (lenR + 4 + 1)%nat with (5 + lenR)%nat by lia. fold lenS. lia.
+Qed.
+
+(* the three main theorems with "sign's output parses" discharged from "sign's output is strictly encoded" *)
+Section Final.
+Variable hash160 : bytes -> bytes.
+Variable sha256 : bytes -> bytes.
+Variable verifies : bytes -> bytes -> bytes -> bool.
+Variable sign : bytes -> bytes -> bytes.
+Variable pub_of : bytes -> bool -> bytes.
+Variable sighash : bool -> N -> bytes -> option bytes.
+Hypothesis Hsv : forall se c d, verifies (pub_of se c) d (sign se d) = true.
+Hypothesis Hcanon : forall se d t, strict_der (sign se d ++ [t]) = true /\ low_s (sign se d ++ [t]) = true.
+
+Lemma canon_parses : forall se d t, parse_sig_ok (sign se d ++ [t]) = true.
+Proof. intros. apply strict_der_parses. apply Hcanon. Qed.
+
+Definition ms_validates_c (Hsha : forall x, length (sha256 x) = 32%nat) :=
+  ms_validates hash160 sha256 verifies sign pub_of sighash Hsv Hcanon canon_parses Hsha.
+Definition single_validates_c (Hh : forall x, length (hash160 x) = 20%nat)
+    (Hp : forall se, is_compressed (pub_of se true) = true /\ is_uncompressed (pub_of se false) = true) :=
+  single_validates hash160 sha256 verifies sign pub_of sighash Hsv Hcanon canon_parses Hh Hp.
+Definition partial_signing_order_free_c (Hsha : forall x, length (sha256 x) = 32%nat) :=
+  partial_signing_order_free hash160 sha256 verifies sign pub_of sighash Hsv Hcanon canon_parses Hsha.
+End Final.
